@@ -45,24 +45,43 @@ def main():
             return res
         astool = os.path.join(scratch, "astool")
         # ---- the shipped vocabularies, repeatedly
-        n = 3 if tier == "quick" else 12
-        hashes = []
-        for i in range(n):
+        n = 10 if tier == "quick" else 40
+        from concurrent.futures import ThreadPoolExecutor
+        def one(i):
             d = os.path.join(scratch, "ship%d" % i)
             os.makedirs(d)
             cmd = [astool] + sum((["-spec", os.path.join(REPO, "astool", s)] for s in SPECS), []) + ["-path", "github.com/go-fed/activity", "./streams"]
             rc, out = sh(cmd, cwd=d)
             if rc != 0 or not os.path.isdir(os.path.join(d, "streams")):
-                res["violations"].append({"sig": "C15:astool-run", "what": "astool fails on the shipped vocabularies", "detail": out[-2000:]})
-                return res
-            hashes.append(tree_hash(os.path.join(d, "streams")))
+                return None, out
+            h = tree_hash(os.path.join(d, "streams"))
             if i > 0:
                 shutil.rmtree(os.path.join(d, "streams"))
-            res["runs"] += 1
+            return h, out
+        with ThreadPoolExecutor(max_workers=5) as ex:
+            outs = list(ex.map(one, range(n)))
+        for h, out in outs:
+            if h is None:
+                res["violations"].append({"sig": "C15:astool-run", "what": "astool fails on the shipped vocabularies", "detail": out[-2000:]})
+                return res
+        hashes = [h for h, _ in outs]
+        res["runs"] += n
         res["shipped_runs"] = n
         res["files_generated"] = hashes[0][1]
         if len(set(hashes)) != 1:
             res["violations"].append({"sig": "C15:nondeterministic", "what": "two runs of astool on the shipped vocabularies differ", "detail": [h[0] for h in hashes]})
+        # every generated file, byte for byte, against the shipped one of the same path (hand-written files of streams/ aside)
+        gen0 = os.path.join(scratch, "ship0", "streams")
+        differing = []
+        for root, _, files in sorted(os.walk(gen0)):
+            for f in sorted(files):
+                gp = os.path.join(root, f)
+                sp = os.path.join(REPO, "streams", os.path.relpath(gp, gen0))
+                if not os.path.exists(sp) or open(sp, "rb").read() != open(gp, "rb").read():
+                    differing.append(os.path.relpath(gp, gen0))
+        res["shipped_tree_bytes_equal"] = not differing
+        if differing and len(set(hashes)) == 1:
+            res["violations"].append({"sig": "C15:shipped-bytes", "what": "files astool generates from the shipped vocabularies are not byte-identical to /repo/streams", "detail": differing[:20]})
         rc, out = sh([os.path.join(ROOT, "tools", "bin", "translate"), "-astcmp", os.path.join(scratch, "ship0", "streams") + "," + os.path.join(REPO, "streams")])
         try:
             cmp_ = json.loads(out.strip().splitlines()[-1])
